@@ -733,11 +733,12 @@ func execRed(sp []tspan) Result {
 		svcOf[s.id] = s.svc
 	}
 	for _, s := range sp {
-		if s.parent == 0 || svcOf[s.parent] != s.svc {
+		if ps, ok := svcOf[s.parent]; s.parent == 0 || !ok || ps != s.svc {
 			bySvc[s.svc] = append(bySvc[s.svc], s)
 		}
 	}
 	var toks []string
+	rateReported := false
 	for _, sv := range svcs {
 		m := got[svcStr(sv)]
 		es := bySvc[sv]
@@ -750,10 +751,18 @@ func execRed(sp []tspan) Result {
 			}
 			durs = append(durs, (e.end-e.start)/1000000)
 		}
+		// the rate is the number of entry spans PER SECOND over the 5-minute window the spans are collected from
+		// (which spans are entry spans when ids repeat is the fold's own choice: `es` follows its rule, last record of
+		// an id names the service); before the repair c12-8 the count of the 5-minute window was divided by 60
+		if cnt > 0 && f64bits(m.Rate) != f64bits(float64(cnt)/300) && f64bits(m.Rate) == f64bits(float64(cnt)/60) && !rateReported {
+			rateReported = true
+			res.Fails = append(res.Fails, PropFail{Sig: "trace-red/rate-not-per-second", Msg: fmt.Sprintf("service %d: %d entry spans in the 5-minute window, rate %v = %d/60; per second it is %d/300 = %v", sv, cnt, m.Rate, cnt, cnt, float64(cnt)/300)})
+		}
 		if uniq && allParents {
-			want := structs.RedMetrics{Rate: float64(cnt) / 60, ErrorRate: float64(errs) / float64(cnt) * 100,
+			want := structs.RedMetrics{Rate: float64(cnt) / 300, ErrorRate: float64(errs) / float64(cnt) * 100,
 				P50: refPercentile(durs, 50), P90: refPercentile(durs, 90), P95: refPercentile(durs, 95), P99: refPercentile(durs, 99)}
-			if f64bits(want.Rate) != f64bits(m.Rate) || f64bits(want.ErrorRate) != f64bits(m.ErrorRate) || f64bits(want.P50) != f64bits(m.P50) ||
+			rateOld := f64bits(m.Rate) == f64bits(float64(cnt)/60) // reported above
+			if (f64bits(want.Rate) != f64bits(m.Rate) && !rateOld) || f64bits(want.ErrorRate) != f64bits(m.ErrorRate) || f64bits(want.P50) != f64bits(m.P50) ||
 				f64bits(want.P90) != f64bits(m.P90) || f64bits(want.P95) != f64bits(m.P95) || f64bits(want.P99) != f64bits(m.P99) {
 				res.Fails = append(res.Fails, PropFail{Sig: "trace-red/" + shape, Msg: fmt.Sprintf("service %d: got %+v, entry spans give %+v", sv, m, want)})
 			}
